@@ -20,7 +20,7 @@ import (
 var Gamma16 = []byte(`{}[]:,"\0-.etna `)
 
 // Gamma33: one representative per byte class the scanner/decoder distinguishes.
-var Gamma33 = []byte("{}[]:,\"\\/01-+.eEtrufalsnbx \n\x00\x7f\x80\xe2\xff")
+var Gamma33 = []byte("{}[]:,\"\\/01-+.eEtrufalsnbx \n\t\r\f\v\x00\x7f\x80\x85\xa0\xe2\xff")
 
 type byteFlags struct {
 	panics  bool // report panics
@@ -354,7 +354,9 @@ func runBytexA(ctx *core.Ctx, id string, n, nEntry int) {
 			atomic.AddInt64(nacc, 1)
 			ctx.AddState(string(s))
 			if len(s) <= nEntry {
-				for _, t := range []string{string(s), " " + string(s), string(s) + "\n", "\t\r" + string(s) + " "} {
+				for _, t := range []string{string(s), " " + string(s), string(s) + "\n", "\t\r" + string(s) + " ", "\r\n" + string(s) + "\r\n",
+					// not JSON whitespace: must be rejected at either end
+					string(s) + "\f", "\v" + string(s), string(s) + "\xc2\xa0", "\xc2\x85" + string(s), string(s) + "\xe2\x80\xa8"} {
 					m.judgeBytes(t, byteFlags{panics: true, reject: true, accept: true, applyOK: true})
 				}
 			}
